@@ -264,6 +264,9 @@ structure Ident where
   outputs : List Name
   targets : List Target
   fallback : Option Target
+  /-- `multi_target` of a route gate (`None`, printed, for every other node): a multi-target gate validates
+  and stores its decision differently (a list of targets) -/
+  multiTarget : Bool := false
   deriving DecidableEq, Repr, Inhabited
 
 def insertKV (kv : Name × Val) : AL Val → AL Val
@@ -297,6 +300,14 @@ structure KeyEnv where
 
 def identOf (env : KeyEnv) (nd : NodeD) : Ident :=
   { defHash := env.defHash nd, cls := className nd.kind, outputs := nd.outputs, targets := nd.targets,
+    fallback := nd.fallback, multiTarget := nd.multiTarget }
+
+/-- the identity before the repair "multi_target is part of a gate's cache identity": two route gates over
+one routing function with equal targets, one single-target and one multi-target, shared an entry — the
+multi-target gate was served the single decision (and completed) where the uncached run rejects a
+non-list decision. Kept for the negative witness `HG.C09.multi_target_collision_witness`. -/
+def identOfNoMulti (env : KeyEnv) (nd : NodeD) : Ident :=
+  { defHash := env.defHash nd, cls := className nd.kind, outputs := nd.outputs, targets := nd.targets,
     fallback := nd.fallback }
 
 /-- the identity before the fallback repair: `fallback` is not part of it (the component is constantly
@@ -306,7 +317,7 @@ was served the first one's decision. Kept for the negative witness
 `HG.C09.fallback_collision_witness`. -/
 def identOfNoFallback (env : KeyEnv) (nd : NodeD) : Ident :=
   { defHash := env.defHash nd, cls := className nd.kind, outputs := nd.outputs, targets := nd.targets,
-    fallback := .none }
+    fallback := .none, multiTarget := nd.multiTarget }
 
 /-- the key before the fallback repair (`identOfNoFallback` in place of `identOf`) -/
 def keyOfNoFallback (env : KeyEnv) (nd : NodeD) (inputs : AL Val) : Name :=
